@@ -1,0 +1,59 @@
+// This file is part of yash, an extended POSIX shell.
+//
+// Verification hooks (compiled only with the `verif-hooks` cargo feature).
+
+//! Preemption points for schedule exploration
+//!
+//! This module is compiled only when the `verif-hooks` feature is enabled. It
+//! lets an external test harness that owns the executor of a
+//! [`VirtualSystem`](crate::system::virtual::VirtualSystem) make a virtual
+//! process yield to the executor at system-call boundaries (before `wait`,
+//! `read` and `write`), so that other virtual processes can be scheduled in
+//! between. Without the run-time switch ([`set_preemption`]) being turned on,
+//! the hooks do nothing.
+
+use std::cell::Cell;
+use std::future::poll_fn;
+use std::task::Poll;
+
+thread_local! {
+    static PREEMPTION: Cell<bool> = const { Cell::new(false) };
+    static YIELD_REQUESTED: Cell<bool> = const { Cell::new(false) };
+    static YIELD_COUNT: Cell<u64> = const { Cell::new(0) };
+}
+
+/// Turns preemption points on or off for the current thread (default: off).
+pub fn set_preemption(on: bool) {
+    PREEMPTION.with(|p| p.set(on));
+    YIELD_REQUESTED.with(|y| y.set(false));
+}
+
+/// Returns the number of times a preemption point has yielded on this thread.
+pub fn yield_count() -> u64 {
+    YIELD_COUNT.with(Cell::get)
+}
+
+/// Takes the pending yield request, if any.
+pub fn take_yield_request() -> bool {
+    YIELD_REQUESTED.with(|y| y.replace(false))
+}
+
+/// Yields to the executor once if preemption is turned on.
+pub async fn preemption_point() {
+    if !PREEMPTION.with(Cell::get) {
+        return;
+    }
+    let mut yielded = false;
+    poll_fn(|context| {
+        if yielded {
+            Poll::Ready(())
+        } else {
+            yielded = true;
+            YIELD_REQUESTED.with(|y| y.set(true));
+            YIELD_COUNT.with(|c| c.set(c.get() + 1));
+            context.waker().wake_by_ref();
+            Poll::Pending
+        }
+    })
+    .await
+}
